@@ -1,4 +1,5 @@
 import DigModel.Proofs.Retry
+import DigModel.Proofs.ProvApi
 /-
   C07 — Failed executions contribute nothing and are retried.
 
@@ -14,8 +15,13 @@ import DigModel.Proofs.Retry
   * `C07_root_cause`: what the failing call hands upwards (C13_ctor_outcome, C13_deco_outcome).
   * `C07_others_kept`: nodes being built are untouched and built nodes stay built during any resolver
     call, failing or not (frame part of the flag discipline).
-  "No returned value is ever delivered" at history level is carried by the trace predicate `pred_c07`
-  on the implementation and by the correspondence with the model.
+  * `C07_failed_never_delivered` (whole programs): in the history of any operation sequence, if execution
+    `x` of function `f` ended with an error or a panic, then no value stemming from that execution is ever
+    handed to any user function as (part of) an argument — before or after, in any scope, through single
+    values, groups, decorated values or parameter objects.  (Invariants `Prov`: every token in a cache or in
+    an argument comes from an execution with a successful exit *earlier* in the history; `ExecInv`: an
+    execution number ends at most once.)
+  * `C07_failed_never_cached`: nor does such a value sit in any cache of any scope at the end.
 -/
 namespace Dig.C07
 
@@ -81,7 +87,35 @@ theorem C07_others_kept (ctx : Ctx) (L L' fuel : Nat) (ps : List Param) (c : Nat
   have h := (engine_flags ctx L L' fuel).2.2.2.2.2 ps c st hv
   ⟨h.ctorFrame, h.decoFrame, h.ctorMono⟩
 
+theorem C07_failed_never_delivered (p : Program) (w : Who) (f x : Nat) (r : ExitKind) (hr : r ≠ .ok)
+    (hfail : Event.exit w f x r ∈ (runProgram p).1.hist)
+    (i : Nat) (w' : Who) (g y : Nat) (args : List Val)
+    (hent : (runProgram p).1.hist[i]? = some (.enter w' g y args)) :
+    ∀ a ∈ args, (f, x) ∉ a.toks := by
+  intro a ha hmem
+  obtain ⟨w2, _, hok⟩ := (prov_program p).args i w' g y args hent a ha (f, x) hmem
+  exact (execInv_program p).failed_not_ok w f x r hr hfail w2 (List.mem_of_mem_take hok)
+
+theorem C07_failed_never_cached (p : Program) (w : Who) (f x : Nat) (r : ExitKind) (hr : r ≠ .ok)
+    (hfail : Event.exit w f x r ∈ (runProgram p).1.hist) (s : Nat) (k : Key) :
+    (∀ v, aget ((runProgram p).1.scope s).values k = some v → (f, x) ∉ v.toks) ∧
+    (∀ v, aget ((runProgram p).1.scope s).decoratedValues k = some v → (f, x) ∉ v.toks) ∧
+    (∀ v, v ∈ agetL ((runProgram p).1.scope s).groups k → (f, x) ∉ v.toks) ∧
+    (∀ v, aget ((runProgram p).1.scope s).decoratedGroups k = some v → (f, x) ∉ v.toks) := by
+  have hp := (prov_program p).scopes s
+  have hx := (execInv_program p).failed_not_ok w f x r hr hfail
+  refine ⟨?_, ?_, ?_, ?_⟩
+  · intro v hv hm; obtain ⟨w2, _, hok⟩ := hp.values k v hv (f, x) hm; exact hx w2 hok
+  · intro v hv hm; obtain ⟨w2, _, hok⟩ := hp.dvalues k v hv (f, x) hm; exact hx w2 hok
+  · intro v hv hm; obtain ⟨w2, _, hok⟩ := hp.groups k v hv (f, x) hm; exact hx w2 hok
+  · intro v hv hm; obtain ⟨w2, _, hok⟩ := hp.dgroups k v hv (f, x) hm; exact hx w2 hok
+
+/-- non-vacuity: a value made by an execution does carry that execution's token -/
+example : (7, 3) ∈ (Val.sl [Val.tok 7 3 0 0, Val.zero 5]).toks := by decide
+
 #print axioms C07_failed_writes_nothing
+#print axioms C07_failed_never_delivered
+#print axioms C07_failed_never_cached
 #print axioms C07_failed_deco_writes_nothing
 #print axioms C07_retry_ctor
 #print axioms C07_retry_deco
